@@ -220,7 +220,7 @@ pub fn c13(rng: &mut Rng, tier: &str, _idx: usize) -> Case {
 
 // ---------------------------------------------------------------- C18
 
-const EDIT_KINDS: [&str; 16] = [
+const EDIT_KINDS: [&str; 17] = [
     "none",
     "rename_term",
     "add_parent",
@@ -235,6 +235,7 @@ const EDIT_KINDS: [&str; 16] = [
     "add_term",
     "remove_term",
     "version",
+    "move_parent",
     "several",
     "many",
     // "dangling_parent" (a parent id that is not a term) was generated here at first: such an
@@ -280,6 +281,24 @@ fn edit(rng: &mut Rng, f: &mut Facts, flags: &mut Flags, kind: &str) -> bool {
                 // keep it a DAG: the new parent must not be the child or one of its descendants
                 if p != ch && !anc[&p].contains(&ch) && !f.edges.contains(&(p, ch)) {
                     f.edges.push((p, ch));
+                    return true;
+                }
+            }
+            false
+        }
+        "move_parent" => {
+            // one parent link replaced by another: the NUMBER of direct parents stays the same
+            let anc = ancestors(f);
+            for _ in 0..30 {
+                let cand: Vec<usize> = (0..f.edges.len()).filter(|i| f.edges[*i] != (1, 118)).collect();
+                if cand.is_empty() {
+                    return false;
+                }
+                let i = *rng.pick(&cand);
+                let (old_p, ch) = f.edges[i];
+                let p = *rng.pick(&ids_all);
+                if p != ch && p != old_p && !anc[&p].contains(&ch) && !f.edges.contains(&(p, ch)) {
+                    f.edges[i] = (p, ch);
                     return true;
                 }
             }
@@ -535,7 +554,7 @@ pub fn c18(rng: &mut Rng, _tier: &str, idx: usize) -> Case {
     facts_to_fops(rng, &f, &flags, fv_a, 0, true, &mut c);
     let (mut g, mut gflags) = (f.clone(), flags.clone());
     let mut applied = 0u64;
-    let single = EDIT_KINDS[1..14].to_vec();
+    let single = EDIT_KINDS[1..15].to_vec();
     match kind {
         "none" => {}
         "several" | "many" => {
